@@ -46,8 +46,8 @@ pub open spec fn sweep_cur(pre: S, cur: int) -> int {
     if pre.sweep is Some && pre.objs[pre.sweep->Some_0].color != GcColor::White { cur + 1 } else { cur }
 }
 
-pub proof fn lemma_sweep_inv(pre: S, post: S, r: ControlFlow<()>, l: Seq<GcPtr>, cur: int)
-    requires inv_w(pre, l, cur), pre.phase == Phase::Sweep, sweep_one_rel(pre, post, r),
+pub proof fn lemma_sweep_none(pre: S, post: S, r: ControlFlow<()>, l: Seq<GcPtr>, cur: int)
+    requires inv_w(pre, l, cur), pre.phase == Phase::Sweep, sweep_one_rel(pre, post, r), pre.sweep is None,
     ensures
         inv_w(post, sweep_l(pre, l, cur), sweep_cur(pre, cur)),
         // T-safe (C01, C04, C05): only condemned values are destructed, only weakly-condemned blocks released
@@ -59,7 +59,7 @@ pub proof fn lemma_sweep_inv(pre: S, post: S, r: ControlFlow<()>, l: Seq<GcPtr>,
 {
     let ql = sweep_l(pre, l, cur); let qc = sweep_cur(pre, cur);
     lemma_index_all(l);
-    if pre.sweep is None {
+    {
         assert(cur == l.len());
         assert(post.objs =~= pre.objs);
         assert forall|q: GcPtr| qcount(post, q) == qcount(pre, q) by {}
@@ -77,8 +77,22 @@ pub proof fn lemma_sweep_inv(pre: S, post: S, r: ControlFlow<()>, l: Seq<GcPtr>,
         assert(i_live(post)) by { assert forall|p: GcPtr| #[trigger] isobj(post, p) implies isobj(pre, p) by {} }
         assert(i_colour(post, l, cur)) by { assert forall|p: GcPtr| #[trigger] isobj(post, p) implies isobj(pre, p) by {} }
         assert(i_list(post, l, cur)) by { assert forall|p: GcPtr| #[trigger] isobj(post, p) <==> l.contains(p) by { assert(isobj(pre, p) <==> l.contains(p)); } }
-        return;
     }
+}
+
+pub proof fn lemma_sweep_white(pre: S, post: S, r: ControlFlow<()>, l: Seq<GcPtr>, cur: int)
+    requires inv_w(pre, l, cur), pre.phase == Phase::Sweep, sweep_one_rel(pre, post, r), pre.sweep is Some && pre.objs[pre.sweep->Some_0].color == GcColor::White,
+    ensures
+        inv_w(post, sweep_l(pre, l, cur), sweep_cur(pre, cur)),
+        // T-safe (C01, C04, C05): only condemned values are destructed, only weakly-condemned blocks released
+        forall|p: GcPtr| post.dropped.contains(p) && !pre.dropped.contains(p) ==> condemned(pre, l, cur, p),
+        forall|p: GcPtr| post.freed.contains(p) && !pre.freed.contains(p) ==> wcondemned(pre, l, cur, p),
+        forall|p: GcPtr| prot(pre, l, cur, p) ==> prot(post, sweep_l(pre, l, cur), sweep_cur(pre, cur), p),
+        forall|p: GcPtr| isobj(pre, p) && !wcondemned(pre, l, cur, p) ==> isobj(post, p) && !wcondemned(post, sweep_l(pre, l, cur), sweep_cur(pre, cur), p),
+        r is Break <==> cur == l.len(),
+{
+    let ql = sweep_l(pre, l, cur); let qc = sweep_cur(pre, cur);
+    lemma_index_all(l);
     let o = pre.sweep->Some_0;
     let k = cur;
     assert(k < l.len() && l[k] == o);
@@ -87,8 +101,6 @@ pub proof fn lemma_sweep_inv(pre: S, post: S, r: ControlFlow<()>, l: Seq<GcPtr>,
     assert(ob.color != GcColor::Gray);
     assert(ob.next == at(l, k + 1));
     assert forall|q: GcPtr| qcount(post, q) == qcount(pre, q) by {}
-    match ob.color {
-        GcColor::White => {
             lemma_remove_props(l, k);
             lemma_index_all(ql);
             assert(condemned(pre, l, cur, o) && wcondemned(pre, l, cur, o));
@@ -175,7 +187,28 @@ pub proof fn lemma_sweep_inv(pre: S, post: S, r: ControlFlow<()>, l: Seq<GcPtr>,
                 assert(p != o); assert(l.contains(p)); assert(ql.contains(p));
             }
         }
-        _ => {
+
+pub proof fn lemma_sweep_keep(pre: S, post: S, r: ControlFlow<()>, l: Seq<GcPtr>, cur: int)
+    requires inv_w(pre, l, cur), pre.phase == Phase::Sweep, sweep_one_rel(pre, post, r), pre.sweep is Some && pre.objs[pre.sweep->Some_0].color != GcColor::White,
+    ensures
+        inv_w(post, sweep_l(pre, l, cur), sweep_cur(pre, cur)),
+        // T-safe (C01, C04, C05): only condemned values are destructed, only weakly-condemned blocks released
+        forall|p: GcPtr| post.dropped.contains(p) && !pre.dropped.contains(p) ==> condemned(pre, l, cur, p),
+        forall|p: GcPtr| post.freed.contains(p) && !pre.freed.contains(p) ==> wcondemned(pre, l, cur, p),
+        forall|p: GcPtr| prot(pre, l, cur, p) ==> prot(post, sweep_l(pre, l, cur), sweep_cur(pre, cur), p),
+        forall|p: GcPtr| isobj(pre, p) && !wcondemned(pre, l, cur, p) ==> isobj(post, p) && !wcondemned(post, sweep_l(pre, l, cur), sweep_cur(pre, cur), p),
+        r is Break <==> cur == l.len(),
+{
+    let ql = sweep_l(pre, l, cur); let qc = sweep_cur(pre, cur);
+    lemma_index_all(l);
+    let o = pre.sweep->Some_0;
+    let k = cur;
+    assert(k < l.len() && l[k] == o);
+    assert(isobj(pre, o)) by { assert(l.contains(o)); }
+    let ob = pre.objs[o];
+    assert(ob.color != GcColor::Gray);
+    assert(ob.next == at(l, k + 1));
+    assert forall|q: GcPtr| qcount(post, q) == qcount(pre, q) by {}
             // WhiteWeak or Black: the object stays, turns White, moves behind the cursor
             assert(ql == l && qc == cur + 1);
             assert(post.objs.dom() =~= pre.objs.dom());
@@ -220,7 +253,21 @@ pub proof fn lemma_sweep_inv(pre: S, post: S, r: ControlFlow<()>, l: Seq<GcPtr>,
             assert(i_tri(post));
             assert(i_count(post, l));
         }
-    }
+
+pub proof fn lemma_sweep_inv(pre: S, post: S, r: ControlFlow<()>, l: Seq<GcPtr>, cur: int)
+    requires inv_w(pre, l, cur), pre.phase == Phase::Sweep, sweep_one_rel(pre, post, r),
+    ensures
+        inv_w(post, sweep_l(pre, l, cur), sweep_cur(pre, cur)),
+        // T-safe (C01, C04, C05): only condemned values are destructed, only weakly-condemned blocks released
+        forall|p: GcPtr| post.dropped.contains(p) && !pre.dropped.contains(p) ==> condemned(pre, l, cur, p),
+        forall|p: GcPtr| post.freed.contains(p) && !pre.freed.contains(p) ==> wcondemned(pre, l, cur, p),
+        forall|p: GcPtr| prot(pre, l, cur, p) ==> prot(post, sweep_l(pre, l, cur), sweep_cur(pre, cur), p),
+        forall|p: GcPtr| isobj(pre, p) && !wcondemned(pre, l, cur, p) ==> isobj(post, p) && !wcondemned(post, sweep_l(pre, l, cur), sweep_cur(pre, cur), p),
+        r is Break <==> cur == l.len(),
+{
+    if pre.sweep is None { lemma_sweep_none(pre, post, r, l, cur); }
+    else if pre.objs[pre.sweep->Some_0].color == GcColor::White { lemma_sweep_white(pre, post, r, l, cur); }
+    else { lemma_sweep_keep(pre, post, r, l, cur); }
 }
 
 } // mod lem_sweep
